@@ -47,7 +47,9 @@ def _importlib_resources_contents(package: str) -> Iterable[str]:
     Note that not all entries are resources.  Specifically, directories are
     not considered resources. 
     """
-    return [path.name for path in importlib_resources.files(package).iterdir()]
+    # Sorted: the order in which the file system lists the entries must not decide
+    # the order in which the extensions are loaded.
+    return sorted(path.name for path in importlib_resources.files(package).iterdir())
 
 
 def _importlib_resources_is_resource(package: str, name: str) -> bool:
